@@ -10,6 +10,11 @@ complete value domain of one byte.
 from .model import N
 
 CHAR_TYPES = ("char", "signed char", "unsigned char")
+
+
+def unq(ty):
+    """canonical type string without cv-qualifiers"""
+    return (ty or "").replace("const ", "").replace("volatile ", "").replace(" const", "").strip()
 _CTYPE = {
     "isalpha": lambda v: (65 <= v <= 90) or (97 <= v <= 122),
     "isupper": lambda v: 65 <= v <= 90,
@@ -60,7 +65,7 @@ class Sym:
         if self.did is not None:
             return n.k == "DeclRefExpr" and n.d.get("did") == self.did
         return n.k in ("ArraySubscriptExpr", "UnaryOperator", "DeclRefExpr", "MemberExpr") and \
-            n.ty in CHAR_TYPES and n.text() == self.text
+            unq(n.ty) in CHAR_TYPES and n.text() == self.text
 
     def vars(self):
         return self.text
@@ -99,6 +104,16 @@ def ev(n, sym, val):
         if op == "~":
             return ~v
         return None
+    if k == "BinaryOperator" and n.d["op"] == "&" and n.mac:
+        # glibc spells isalpha(c) as ((*__ctype_b_loc())[(int)(c)] & _ISalpha): recognise the expansion
+        cname = next((m for m in n.mac if m in _CTYPE), None)
+        if cname is not None:
+            sub = n.kids[0].strip(casts=True)
+            if sub.k == "ArraySubscriptExpr" and any(c.callee == "__ctype_b_loc" for c in sub.kids[0].calls()):
+                v = ev(sub.kids[1], sym, val)
+                if v is None:
+                    return None
+                return int(bool(_CTYPE[cname](v))) if 0 <= v <= 127 else 0
     if k == "BinaryOperator":
         op = n.d["op"]
         if op == "&&":
@@ -186,7 +201,7 @@ def char_origin(idx):
     Returns the node or None.  Only one char lvalue may occur."""
     found = []
     for x in idx.walk():
-        if x.k in ("ArraySubscriptExpr", "UnaryOperator", "DeclRefExpr", "MemberExpr") and x.ty in CHAR_TYPES:
+        if x.k in ("ArraySubscriptExpr", "UnaryOperator", "DeclRefExpr", "MemberExpr") and unq(x.ty) in CHAR_TYPES:
             if x.k == "UnaryOperator" and x.d.get("op") != "*":
                 continue
             # must be an lvalue load: its parent chain leads to an LValueToRValue cast
